@@ -77,10 +77,16 @@ func runHistory(run *ev.Run, caseIdx int, router int) {
 			if scopes != "" {
 				form.Set("scope", scopes)
 			}
+			named := ""
+			if (auth.Kind == "basic" || auth.Kind == "assertion") && standing == "valid" && r.IntN(5) == 0 {
+				// the proven identity is a.id, the form names somebody else: the flow belongs to the proven client (or is refused)
+				named = pick(r, "dev", "dev2", "devpub", "devjwt")
+				form.Set("client_id", named)
+			}
 			t0 := time.Now()
 			resp := post(w, router, "/device_authorization", form, auth, "")
 			t1 := time.Now()
-			entry := opLog{"device_authorization", fmt.Sprintf("client=%s(%s) cred=%s(%s) scope=%q", a.id, a.kind, ck, standing, scopes), lit("/device_authorization", form, auth, ""), resp.Brief()}
+			entry := opLog{"device_authorization", fmt.Sprintf("client=%s(%s) cred=%s(%s) scope=%q form-names=%q", a.id, a.kind, ck, standing, scopes, named), lit("/device_authorization", form, auth, ""), resp.Brief()}
 			log = append(log, entry)
 			if resp.Panic != nil {
 				violated("panic:"+resp.Panic.Site(), "device authorization handler panicked: "+resp.Panic.Value)
@@ -108,7 +114,7 @@ func runHistory(run *ev.Run, caseIdx int, router int) {
 				violated("response:"+f.key, f.what)
 				return
 			}
-			run.Distinct(fmt.Sprintf("da|%s|%s|%s|%d", rn, a.kind, ck, len(fields(scopes))))
+			run.Distinct(fmt.Sprintf("da|%s|%s|%s|%d|names-other=%v", rn, a.kind, ck, len(fields(scopes)), named != "" && named != a.id))
 			d := &mDev{n: len(devs), code: res.DeviceCode, userCode: res.UserCode, owner: a.id, scopes: fields(scopes), state: "pending", tainted: standing == "invalid"}
 			devs = append(devs, d)
 			run.SampleKind("device_authorization_response", map[string]any{"router": rn, "request": entry.Req, "response": resp.Body.String()})
@@ -213,10 +219,16 @@ func poll(run *ev.Run, w *opdrv.World, r randSource, router, hostile int, pop ma
 	if codeKind != "absent" {
 		form.Set("device_code", code)
 	}
+	named := false
+	if foreign && standing == "valid" && (auth.Kind == "basic" || auth.Kind == "assertion") && r.IntN(2) == 0 {
+		// proven identity is the foreign client, the form names the owner of the code
+		named = true
+		form.Set("client_id", d.owner)
+	}
 	resp := post(w, router, "/oauth/token", form, auth, ctxKind)
 	w.Store.Arm(nil)
 	repoll := codeKind == "issued" && d.wins > 0
-	detail := fmt.Sprintf("code=%s(#%d of %s, %s) presenter=%s(%s) cred=%s(%s) storage=%s", codeKind, d.n, d.owner, d.label(), presenter.id, presenter.kind, ck, standing, fault)
+	detail := fmt.Sprintf("code=%s(#%d of %s, %s) presenter=%s(%s) cred=%s(%s) storage=%s form-names-owner=%v", codeKind, d.n, d.owner, d.label(), presenter.id, presenter.kind, ck, standing, fault, named)
 	*log = append(*log, opLog{"poll", detail, lit("/oauth/token", form, auth, ctxKind), resp.Brief()})
 	run.Eval()
 	if resp.Panic != nil {
@@ -253,7 +265,7 @@ func poll(run *ev.Run, w *opdrv.World, r randSource, router, hostile int, pop ma
 			refuse = append(refuse, "state-denied")
 		}
 	}
-	dim := fmt.Sprintf("poll|%s|%s|own=%v|%s>%s|%s/%s|%s|%s|repoll=%v", rn, codeKind, !foreign, own.kind, presenter.kind, ck, standing, d.label(), fault, repoll)
+	dim := fmt.Sprintf("poll|%s|%s|own=%v|%s>%s|%s/%s|%s|%s|repoll=%v|names-owner=%v", rn, codeKind, !foreign, own.kind, presenter.kind, ck, standing, d.label(), fault, repoll, named)
 	run.Distinct(dim)
 
 	if len(refuse) > 0 {
@@ -310,6 +322,9 @@ func poll(run *ev.Run, w *opdrv.World, r randSource, router, hostile int, pop ma
 				run.Observed("unknown-code-refused:" + rn)
 				run.SampleKind("unknown_code", sampleOf(rn, *log))
 			} else {
+				if named {
+					run.Count("outcome", "refused:foreign-client-naming-the-owner")
+				}
 				run.Observed("foreign-client-refused:" + rn)
 				run.SampleKind("foreign_client", sampleOf(rn, *log))
 			}
